@@ -5,7 +5,8 @@ use super::merge_helpers::{
 use super::merge_overlay::{MergeOverlayEdge, MergeOverlayNode, MergeOverlayState};
 use super::property_bridge::merge_props_to_values;
 use super::write_support::{
-    merge_apply_label_items, merge_apply_map_items, merge_apply_set_items, merge_eval_props_on_row,
+    merge_apply_label_items, merge_apply_map_items, merge_apply_set_items,
+    merge_eval_pattern_props_on_row,
 };
 use super::{
     EdgeKey, Error, GraphSnapshot, NodeValue, PathValue, RelationshipValue, Result, Row, Value,
@@ -42,7 +43,7 @@ pub(super) fn execute_merge_create_from_rows<S: GraphSnapshot>(
         };
 
         for row in input_rows {
-            let node_props = merge_eval_props_on_row(snapshot, &row, &node_pat.properties, params)?;
+            let node_props = merge_eval_pattern_props_on_row(snapshot, &row, &node_pat.properties, params)?;
             let mut was_created = false;
             let mut candidates = if let Some(var) = &node_pat.variable {
                 row.get_node(var).map(|iid| vec![iid]).unwrap_or_default()
@@ -169,9 +170,9 @@ pub(super) fn execute_merge_create_from_rows<S: GraphSnapshot>(
         .clone();
 
     for row in input_rows {
-        let src_props = merge_eval_props_on_row(snapshot, &row, &src_node.properties, params)?;
-        let dst_props = merge_eval_props_on_row(snapshot, &row, &dst_node.properties, params)?;
-        let rel_props = merge_eval_props_on_row(snapshot, &row, &rel_pat.properties, params)?;
+        let src_props = merge_eval_pattern_props_on_row(snapshot, &row, &src_node.properties, params)?;
+        let dst_props = merge_eval_pattern_props_on_row(snapshot, &row, &dst_node.properties, params)?;
+        let rel_props = merge_eval_pattern_props_on_row(snapshot, &row, &rel_pat.properties, params)?;
 
         // Endpoints bound by the incoming row are fixed; unbound endpoints range over the
         // matching nodes. Nothing is created before the whole pattern failed to match.
